@@ -107,6 +107,43 @@ func (p penLoader) LoadDocument(u string) (*ld.RemoteDocument, error) {
 	return p.next.LoadDocument(u)
 }
 
+// gateLoader stops ONE goroutine at its next context look-up (StoreCredential: after the id look-up, inside the signature
+// check, before the write) until the script lets it go on.
+type gateLoader struct {
+	next    ld.DocumentLoader
+	mu      sync.Mutex
+	armed   bool
+	reached chan struct{}
+	release chan struct{}
+}
+
+func (g *gateLoader) LoadDocument(u string) (*ld.RemoteDocument, error) {
+	g.mu.Lock()
+	if g.armed {
+		g.armed = false
+		reached, release := g.reached, g.release
+		g.mu.Unlock()
+		close(reached)
+		<-release
+	} else {
+		g.mu.Unlock()
+	}
+	return g.next.LoadDocument(u)
+}
+
+func (g *gateLoader) arm() (reached, release chan struct{}) {
+	g.mu.Lock()
+	defer g.mu.Unlock()
+	g.armed, g.reached, g.release = true, make(chan struct{}), make(chan struct{})
+	return g.reached, g.release
+}
+
+func (g *gateLoader) disarm() {
+	g.mu.Lock()
+	g.armed = false
+	g.mu.Unlock()
+}
+
 type ldManager struct{ loader ld.DocumentLoader }
 
 func (m ldManager) DocumentLoader() ld.DocumentLoader { return m.loader }
@@ -114,16 +151,17 @@ func (m ldManager) DocumentLoader() ld.DocumentLoader { return m.loader }
 const maxFlaky = 6000
 
 // receiverLD builds the PRODUCTION loader chain (strict mode: only allow-listed remote contexts) with the flaky URLs allowed.
-func receiverLD(cs *ctxServer) (jsonld.JSONLD, error) {
+func receiverLD(cs *ctxServer) (jsonld.JSONLD, *gateLoader, error) {
 	cfg := jsonld.DefaultContextConfig()
 	for i := 0; i < maxFlaky; i++ {
 		cfg.RemoteAllowList = append(cfg.RemoteAllowList, cs.url(i))
 	}
 	l, err := jsonld.NewContextLoader(false, cfg)
 	if err != nil {
-		return nil, err
+		return nil, nil, err
 	}
-	return ldManager{l}, nil
+	g := &gateLoader{next: l}
+	return ldManager{g}, g, nil
 }
 
 // ------------------------------------------------------------------------------------------ cast
